@@ -128,6 +128,10 @@ func transitiveIncludes(module *parser.Frugal) Modules {
 }
 
 func transitiveIncludesRec(module *parser.Frugal, moduleMap map[string]*parser.Frugal) map[string]*parser.Frugal {
+	if _, visited := moduleMap[module.File]; visited {
+		// Visit every file once, not once per include path.
+		return moduleMap
+	}
 	moduleMap[module.File] = module
 	for _, include := range module.ParsedIncludes {
 		moduleMap = transitiveIncludesRec(include, moduleMap)
